@@ -47,6 +47,10 @@ def gen_case(rng, tier):
                 if s.get('up') and s['up'].get('terminal') == 'never':
                     s['up']['terminal'] = 'complete'
                 s.pop('late_actions', None)
+                if rng.random() < 0.05:
+                    # an initial request-n the API may refuse (or may not): whatever it does, no entry may remain
+                    s['n0'] = rng.choice([0, -1, 2 ** 31, 2 ** 32 - 1])
+                    s['requester'] = None
             specs.append(s)
             iid += 1
     if not specs:
@@ -58,6 +62,8 @@ def ending_of(spec, inter):
     """Returns (terminated: bool, how: str) for an E-mix interaction from what the applications observed."""
     model = spec['model']
     res = inter.get('result')
+    if res and res[0] == 'call-raised':
+        return True, 'rejected-by-the-api'       # e.g. an initial request-n the library refuses: nothing may remain
     if model in ('fnf', 'push'):
         return (res == ('sent',)), 'sent'
     if model == 'rr':
